@@ -1015,6 +1015,18 @@ pub fn run(ctx: &Ctx) -> i32 {
         });
     }
 
+    // characters whose lower / upper case form has another UTF-8 length (U+0130 2->3 bytes, Kelvin sign 3->1,
+    // U+1E9E 3->2): an offset found in a case-mapped copy does not fit the original
+    {
+        let a: [&str; 6] = ["\u{130}", "\u{212a}", "\u{1e9e}", "/", ":", "a"];
+        let n = count_upto(6, ctx.tier.pick(5u32, 6u32));
+        d.sweep(ctx, n, 0, |r, i| {
+            let mut s = String::new();
+            nth_string(&a, i, &mut s);
+            law_trim_protocol(r, &s);
+        });
+    }
+
     // ---- F. parse_paths over {':', 'a', '/'} -------------------------------------------------
     let a_pp: [&str; 3] = [":", "a", "/"];
     let l_pp = ctx.tier.pick(9u32, 12u32);
